@@ -47,6 +47,9 @@ type sqv struct {
 	n    int
 	kids []*sqv
 	tail *sqv // '(' only: the tail of a dotted pair
+	// fresh: in an expected result (ch_sq_hist.go), a container built by the template itself
+	// (not part of the value of an unquoted expression)
+	fresh bool
 }
 
 func (v *sqv) tokens(out *[]string) {
@@ -401,7 +404,14 @@ func sqSplit(toks []string) (tmpl *sqv, rest []string) {
 	return nil, nil
 }
 
-func sqExec(toks []string) string {
+// the interpreter prints diagnostics ("alert: did not find SexpStackmark …") on stdout: keep
+// them out of the answer stream (`quiet`, ch_togo.go)
+func sqExec(toks []string) (ans string) {
+	quiet(func() { ans = sqExec1(toks) })
+	return
+}
+
+func sqExec1(toks []string) string {
 	if len(toks) < 4 {
 		return "bad-op"
 	}
@@ -416,6 +426,14 @@ func sqExec(toks []string) string {
 			return "bad-op"
 		}
 		return sqExecM(toks[1], n, toks[3:])
+	case "h":
+		n, err := strconv.Atoi(toks[2])
+		if err != nil {
+			return "bad-op"
+		}
+		return sqExecH(toks[1], n, toks[3:])
+	case "k", "kc":
+		return sqExecK(toks)
 	}
 	return "bad-op"
 }
@@ -1178,6 +1196,10 @@ func sqGenMain(g *Gen) {
 			}
 		}
 	}
+	// 5. freshness: one template evaluated repeatedly, earlier results mutated in place (ch_sq_hist.go)
+	sqGenHist(g)
+	// 6. call-site contexts: macro call vs the expansion written by hand (ch_sq_ctx.go)
+	sqGenCtx(g)
 }
 
 func init() {
